@@ -2,11 +2,13 @@ module verifharness
 
 go 1.22
 
-require github.com/cybergarage/go-redis v0.0.0
+require (
+	github.com/cybergarage/go-redis v0.0.0
+	github.com/cybergarage/go-tracing v1.1.3
+)
 
 require (
 	github.com/cybergarage/go-logger v1.3.4 // indirect
-	github.com/cybergarage/go-tracing v1.1.3 // indirect
 	github.com/google/uuid v1.6.0 // indirect
 )
 
